@@ -84,8 +84,8 @@ func c05AliasPrograms(c *Ctx) []c05Prog {
 			// width: the mov into the merged variable takes the recycled block first)
 			cfg.consumer = 2
 		}
-		if cfg.w*cfg.k > 64 {
-			cfg.fresh = 1 // keep the multiplier small
+		if cfg.w*cfg.k > 32 {
+			cfg.fresh = 1 // keep the multiplier small (a 64-bit one costs the model 15 s)
 		}
 		variants := []string{"trigger", "consumer-first", "operand-used-later", "slice-not-returned", "no-later-value"}
 		for vi, v := range variants {
